@@ -301,6 +301,31 @@ CHECKS = {
 NOT_YET = "check not built yet in this session (planned, see DESIGN.md section 4)"
 
 
+# additions made while closing the holes that the seeded-change rounds 5 and 6 showed (DESIGN.md 11.2)
+ADDED = {
+    "C01": "Further plan elements: late duplicates of ACK/NAK towards the host (up to 6 frames late), peer frames arriving back to back in one read, "
+           "an upper layer that raises on selected deliveries, payloads up to the 128-byte limit of a conforming peer, a late peer send after the host gave up.",
+    "C03": "Frames are also written in sequences through ONE protocol instance (every ordered ACK/NAK pair, generated mixed sequences), with the objects "
+           "handed to write() re-read afterwards and with debug logging on; in-sequence DATA frames up to 256 bytes also go through the receive path.",
+    "C04": "The alphabet includes the host's own reset request; the upper layer may raise on delivery.",
+    "C09": "Also: a reboot announcement (non-software RSTACK) just before the handshake, commands issued while EZSP is stopped for the reset.",
+    "C10": "Failure kinds also include ERROR / RSTACK codes without a name and an NCP that answers DATA alternately with NAK and silence.",
+    "C11": "Also with the host having declared the link failed by itself before the request, and with stray XOFF / XON bytes before it.",
+    "C12": "Also: disconnect() while accepted requests wait, caller cancellation inside the set-up commands, five failure statuses, v14 foreign tags sharing "
+           "the low byte, and every attempt of a request that needs set-up must directly follow set-up of its own.",
+    "C14": "Also: a second read on the same connection, one link key refused by the NCP, one erased after the restore, table sizes that are configuration "
+           "(firmware defaults small, forgotten on reboot), an NCP that is off-network with keys left in non-volatile memory, masks without the channel.",
+    "C15": "Also: an unreadable entry during scans (outside the host's view, not judged), 'not found' rejection statuses, the NCP table wiped before a "
+           "second start-up on the same object, two or three calls for different groups in flight at once.",
+    "C17": "Also: one or two additional waiters for the same status, results of the other scan kind mixed in.",
+    "C19": "Also: the keep-alive in flight while the protocol handler is replaced, feeds while EZSP is stopped (v4), the protocol version switched between "
+           "feeds, feed counters starting near 2^16 / 2^31 / 2^32; any BaseException from a feed is a violation.",
+    "C20": "Also: keyword arguments named like the proxy's own plumbing, a plain method carrying __wrapped__ of a coroutine function, RuntimeError from "
+           "owner-loop calls, and after every burst (before any await) each cross-thread coroutine body must have begun on the owner's loop.",
+}
+RUNNER_NOTE = " In every run each fourth worker shard executes with debug logging switched on (into a null handler)."
+
+
 def main():
     props = [json.loads(l) for l in open(os.path.join(ROOT, "properties.jsonl"))]
     ids = [p["id"] for p in props]
@@ -309,6 +334,9 @@ def main():
         if pid not in CHECKS:
             continue
         cat, text, note, tech, ref = CHECKS[pid]
+        if pid in ADDED:
+            text = text + " " + ADDED[pid]
+        note = note + RUNNER_NOTE
         checks.append({
             "property_id": pid,
             "quick_cmd": f"./check {pid} quick",
